@@ -368,6 +368,15 @@ def _run_all(ctx, drv, T):
                     if extra_r or extra_w:
                         ctx.disagree({'file': f.label, 'view': name}, {'reader uses': extra_r, 'writer uses': extra_w},
                                      {'rdeps': sv['rdeps'], 'wdeps': sv['wdeps']}, 'traced view dependencies not in the extracted tables')
+                # the theorems are applied to the tables the model is run with (static tables restricted to the traced
+                # dependencies): the same decidable predicates must hold for them (evaluated by the compiled model)
+                tt = drv.batch([{'op': 'tables', 'rd': f.rd, 'wd': f.wd}])[0] if drv is not None else None
+                if tt is not None:
+                    bad = [k for k in ('WF', 'WritesAll', 'Topo', 'RAcyclic', 'Frame', 'BorrowOK') if not tt.get(k)]
+                    if bad and all(T['raw'][k] for k in ('WF', 'WritesAll', 'Topo', 'RAcyclic', 'Frame', 'BorrowOK')):
+                        ctx.disagree({'file': f.label}, 'traced dependencies', {'false predicates': bad, 'topoViolations': tt.get('topoViolations')},
+                                     'TablesOK holds for the extracted tables but not for their restriction to the traced dependencies')
+                    ctx.count('files:TablesOK(traced)' if not bad else 'files:not TablesOK(traced)')
                 if all(sorted(f.rd[v]) == sorted(T['raw']['views'][v]['rdeps']) and sorted(f.wd[v]) == sorted(T['raw']['views'][v]['wdeps'])
                        for v in range(len(T['names']))):
                     ctx.count('files:traced-deps==static')
